@@ -14,6 +14,42 @@ TRUSTED_BASE = {
 }
 
 PROPS = {
+    "C06": {
+        "tests": ["TestC06"],
+        "design_ref": "DESIGN.md §3.6",
+        "level_text": "TODO",
+        "level_note": "TODO",
+    },
+    "C05": {
+        "tests": ["TestC05"],
+        "design_ref": "DESIGN.md §3.5",
+        "level_text": "TODO",
+        "level_note": "TODO",
+    },
+    "C04": {
+        "tests": ["TestC04"],
+        "design_ref": "DESIGN.md §3.4",
+        "level_text": "TODO",
+        "level_note": "TODO",
+    },
+    "C03": {
+        "tests": ["TestC03"],
+        "design_ref": "DESIGN.md §3.3",
+        "level_text": "TODO",
+        "level_note": "TODO",
+    },
+    "C02": {
+        "tests": ["TestC02"],
+        "design_ref": "DESIGN.md §3.2",
+        "level_text": "TODO",
+        "level_note": "TODO",
+    },
+    "C01": {
+        "tests": ["TestC01"],
+        "design_ref": "DESIGN.md §3.1",
+        "level_text": "TODO",
+        "level_note": "TODO",
+    },
     "C14": {
         "tests": ["TestC14"],
         "design_ref": "DESIGN.md §3.14",
